@@ -653,6 +653,14 @@ impl Context {
                     data.type_id.to_error_type(),
                 ));
             }
+            // A variable can not share a name with a function in the same scope
+            Some(VariableExpression::Function(_)) => {
+                return Err(TyperError::ValueAlreadyDefined(
+                    data.name.clone(),
+                    ErrorType::Unknown,
+                    data.type_id.to_error_type(),
+                ));
+            }
             _ => {}
         };
 
@@ -1006,6 +1014,14 @@ impl Context {
             }
             Some(VariableExpression::EnumValueUntyped(_, _)) => {
                 panic!("Non-untyped enum value ended up in parent scope")
+            }
+            // An enum value can not share a name with a function in the parent scope
+            Some(VariableExpression::Function(_)) => {
+                return Err(TyperError::ValueAlreadyDefined(
+                    name.clone(),
+                    ErrorType::Unknown,
+                    ErrorType::Unknown,
+                ));
             }
             _ => {}
         };
